@@ -288,6 +288,42 @@ inductive GTree where
   | unknown (text : String)               -- a statement the translator does not understand
   deriving DecidableEq, Repr, Inhabited
 
+/-- The effectful operations of the concurrent interner's two interning functions. -/
+inductive Effect where
+  | fastGet          -- `self.map.get(..)` before any lock is taken
+  | lockShard        -- `self.map.shards().get(..).unwrap().write()`
+  | recheck          -- `shard.find_or_find_insert_slot(..)` under the lock
+  | lockEntry        -- `self.map.entry(..)`: lock and second lookup in one
+  | store            -- `self.arena.store_str(..)`
+  | keyFetch         -- `self.key.fetch_add(1, ..)`
+  | keyCheck         -- `K::try_from_usize(..)`
+  | stringsInsert    -- `self.strings.insert(key, string)`
+  | mapInsert        -- `shard.insert_in_slot(..)` resp. `v.insert(key)`
+  | other (text : String)
+  deriving DecidableEq, Repr, Inhabited
+
+/-- The effectful operations of the single-threaded interner's two interning functions. -/
+inductive REffect where
+  | hashOne | probe | keyCheck | store | stringsPush | tableInsert
+  | other (text : String)
+  deriving DecidableEq, Repr, Inhabited
+
+inductive FieldName where
+  | map | hasher | strings | arena
+  deriving DecidableEq, Repr, Inhabited
+
+inductive CtorShape where
+  | readerNew (args : List FieldName)
+  | resolverNew (args : List FieldName)
+  deriving DecidableEq, Repr, Inhabited
+
+/-- Body of one of the small functions the model mirrors literally. -/
+inductive BodyShape where
+  | clears (fields : List FieldName)      -- `self.<field>.clear();` in this order, nothing else
+  | moves (ctor : CtorShape)              -- destructure `self`, hand the fields to the constructor
+  | other (text : String)
+  deriving DecidableEq, Repr, Inhabited
+
 /-- Shape of `LockfreeArena::allocate_memory`. -/
 inductive AllocShape where
   | checkThenAdd               -- load, compare, fetch_add as separate steps
